@@ -361,7 +361,7 @@ namespace fam_skiplist {
     static const char* const kSkiplistRule =
         "two operations of different threads on the same key (or one of them an extract_min/extract_max) overlapped, at least one of them a successful "
         "update, and a pre-emptive or yielding switch occurred; sequential mode: an op on a present key, an op on an absent key and a successful removal "
-        "(insert-only nogc variants: a successful and a failed insertion and a find hit and miss)";
+        "(the insert-only nogc variants therefore never count as non-trivial in sequential mode)";
 } // namespace fam_skiplist
 
 #endif
